@@ -6,6 +6,7 @@ package consensus
 // chainkit, a small pool of valid transactions, wallet files of the validators with light scrypt parameters.
 
 import (
+	"encoding/json"
 	"fmt"
 	"maps"
 	"os"
@@ -39,8 +40,98 @@ type c19TxMeta struct {
 	sysFee int64
 }
 
+// C19Shift describes a world whose validator set changes at the committee refresh height 6, which lies inside the
+// run (profile V4C6: the six committee keys are the cast, node j runs the consensus service with the wallet of
+// committee key j from the start; a node whose key is not in the current validator list is watch-only).
+//
+//	Rank    election: all six committee keys are registered candidates and are voted for in the bootstrap blocks so
+//	        that Rank lists them by descending votes (Rank[0] by the genesis holder, the rest by accounts 5..1); the
+//	        committee stays the same six keys (and keeps its address), the validators of the new epoch are the first
+//	        V1 keys of Rank. Empty: no election, the validators are a prefix of the standby committee.
+//	V0, V1  ValidatorsHistory {0: V0, 6: V1} (both zero: the fixed ValidatorsCount 4 of the profile)
+//	C0      CommitteeHistory {0: C0, 6: 6} (zero: six members from genesis); C0 = 3 refreshes at heights 3 and 6
+//	Base    chain height after the bootstrap (4 or 5: the refresh block is the second or the first block of the run)
+type C19Shift struct {
+	Rank []int `json:"rank,omitempty"`
+	V0   int   `json:"v0,omitempty"`
+	V1   int   `json:"v1,omitempty"`
+	C0   int   `json:"c0,omitempty"`
+	Base int   `json:"base"`
+}
+
+const (
+	c19ShiftNodes   = 6
+	c19ShiftRefresh = 6
+)
+
+func (s *C19Shift) counts() (int, int) {
+	if s.V0 == 0 && s.V1 == 0 {
+		return 4, 4
+	}
+	return s.V0, s.V1
+}
+
+func (s *C19Shift) validate() error {
+	v0, v1 := s.counts()
+	if v0 < 1 || v1 < 1 || v0 > c19ShiftNodes || v1 > c19ShiftNodes || (s.Base != 4 && s.Base != 5) || (s.C0 != 0 && s.C0 != 3) || (s.C0 != 0 && v0 > s.C0) {
+		return fmt.Errorf("bad case: shift %+v", *s)
+	}
+	if len(s.Rank) != 0 {
+		seen := map[int]bool{}
+		for _, r := range s.Rank {
+			if r < 0 || r >= c19ShiftNodes || seen[r] {
+				return fmt.Errorf("bad case: shift rank %v", s.Rank)
+			}
+			seen[r] = true
+		}
+		if len(s.Rank) != c19ShiftNodes {
+			return fmt.Errorf("bad case: shift rank %v", s.Rank)
+		}
+	}
+	return nil
+}
+
+// sets returns the node indices of the validators before and after the refresh (by the rules of the protocol, not
+// read from the code under test; the ledgers' own answers are compared with them during the run).
+func (s *C19Shift) sets() (pre, post []int) {
+	v0, v1 := s.counts()
+	for j := 0; j < v0; j++ {
+		pre = append(pre, j)
+	}
+	if len(s.Rank) != 0 {
+		post = slices.Clone(s.Rank[:v1])
+		slices.Sort(post)
+	} else {
+		for j := 0; j < v1; j++ {
+			post = append(post, j)
+		}
+	}
+	return pre, post
+}
+
+// shiftString names the world in messages and class labels.
+func (w *c19World) shiftString() string {
+	s := w.shift
+	if s == nil {
+		return "constant validators"
+	}
+	v0, v1 := s.counts()
+	out := fmt.Sprintf("validators %d>%d", v0, v1)
+	if len(s.Rank) != 0 {
+		out += fmt.Sprintf(", election %v", s.Rank)
+	}
+	if s.C0 != 0 {
+		out += fmt.Sprintf(", committee %d>6", s.C0)
+	}
+	return out + fmt.Sprintf(", refresh at %d, run from %d", c19ShiftRefresh, s.Base)
+}
+
 type c19World struct {
-	n       int
+	n       int       // number of nodes
+	shift   *C19Shift // nil: the validators are the standby list for the whole run (n of them)
+	pre     []int     // node indices of the validators up to the refresh block / of the following blocks
+	post    []int
+	refresh uint32 // height of the refresh block (0: none)
 	chain   ck.ChainCfg
 	boot    [][]byte // bootstrap blocks (heights 1, 2)
 	txs     [][]byte // valid transactions (built against the state after bootstrap)
@@ -128,21 +219,90 @@ func c19DecodeTx(raw []byte) (*transaction.Transaction, error) {
 	return tx, r.Err
 }
 
-// c19GetWorld builds (once per process) the world for a network size and StateRootInHeader setting.
-func c19GetWorld(n int, srih bool) (*c19World, error) {
+// c19BootstrapShift extends the funding prologue of a shift world: the election (registration of the six committee
+// keys paid by the accounts, then the votes) and empty blocks up to the base height.
+func c19BootstrapShift(b *ck.Builder, s *C19Shift) ([][]byte, error) {
+	var out [][]byte
+	add := func(txs []ck.Action) error {
+		raw, _, err := b.BuildBlock(ck.BlockSpec{Txs: txs, TimeD: 1000})
+		if err != nil {
+			return err
+		}
+		out = append(out, raw)
+		return nil
+	}
+	if len(s.Rank) != 0 {
+		var reg, votes []ck.Action
+		for j := 0; j < c19ShiftNodes; j++ {
+			reg = append(reg, ck.Action{Kind: "register", From: j % ck.NAccounts, A: ck.CandCommittee0 + j, Nonce: uint32(500 + j)})
+		}
+		for k, j := range s.Rank {
+			voter := ck.PValidators // the genesis holder: the turnout rule (20% of the supply must vote) is met by it alone
+			if k > 0 {
+				voter = ck.NAccounts - k // accounts 5..1 hold 6000..2000 NEO
+			}
+			votes = append(votes, ck.Action{Kind: "vote", From: voter, A: ck.CandCommittee0 + j, Nonce: uint32(520 + k)})
+		}
+		if err := add(reg); err != nil {
+			return nil, err
+		}
+		if err := add(votes); err != nil {
+			return nil, err
+		}
+	}
+	for b.N.BC.BlockHeight() < uint32(s.Base) {
+		if err := add(nil); err != nil {
+			return nil, err
+		}
+	}
+	if len(b.Rejected) != 0 {
+		return nil, fmt.Errorf("bootstrap transactions rejected: %v", b.Rejected)
+	}
+	if h := b.N.BC.BlockHeight(); h != uint32(s.Base) {
+		return nil, fmt.Errorf("bootstrap ends at height %d, want %d", h, s.Base)
+	}
+	return out, nil
+}
+
+// c19GetWorld builds (once per process) the world for a network size, a StateRootInHeader setting and a shift.
+func c19GetWorld(n int, srih bool, shift *C19Shift) (*c19World, error) {
 	c19Mu.Lock()
 	defer c19Mu.Unlock()
 	key := fmt.Sprintf("%d/%v", n, srih)
+	if shift != nil {
+		if err := shift.validate(); err != nil {
+			return nil, err
+		}
+		if n != c19ShiftNodes {
+			return nil, fmt.Errorf("bad case: a shift world has %d nodes, not %d", c19ShiftNodes, n)
+		}
+		raw, _ := json.Marshal(shift)
+		key += "/" + string(raw)
+	}
 	if w := c19Worlds[key]; w != nil {
 		return w, nil
 	}
 	prof := "V4C6"
 	if n == 7 {
 		prof = "V7C7"
-	} else if n != 4 {
+	} else if n != 4 && shift == nil {
 		return nil, fmt.Errorf("unsupported network size %d", n)
 	}
-	w := &c19World{n: n, chain: ck.ChainCfg{Profile: prof, SRIH: srih, MemPoolSize: 100}}
+	w := &c19World{n: n, shift: shift, chain: ck.ChainCfg{Profile: prof, SRIH: srih, MemPoolSize: 100}}
+	for j := 0; j < n; j++ {
+		w.pre = append(w.pre, j)
+	}
+	w.post = w.pre
+	if shift != nil {
+		w.pre, w.post = shift.sets()
+		w.refresh = c19ShiftRefresh
+		if shift.V0 != 0 || shift.V1 != 0 {
+			w.chain.ValidatorsHistory = map[uint32]uint32{0: uint32(shift.V0), c19ShiftRefresh: uint32(shift.V1)}
+		}
+		if shift.C0 != 0 {
+			w.chain.CommitteeHistory = map[uint32]uint32{0: uint32(shift.C0), c19ShiftRefresh: c19ShiftNodes}
+		}
+	}
 	wf, err := c19WalletFiles()
 	if err != nil {
 		return nil, err
@@ -155,6 +315,13 @@ func c19GetWorld(n int, srih bool) (*c19World, error) {
 	defer b.Close()
 	if w.boot, err = b.Bootstrap(); err != nil {
 		return nil, err
+	}
+	if shift != nil {
+		more, err := c19BootstrapShift(b, shift)
+		if err != nil {
+			return nil, fmt.Errorf("shift %+v: %w", *shift, err)
+		}
+		w.boot = append(w.boot, more...)
 	}
 	w.baseH = b.N.BC.BlockHeight()
 	bc := b.N.BC
@@ -212,6 +379,9 @@ func c19GetWorld(n int, srih bool) (*c19World, error) {
 			}
 			return true
 		})
+	}
+	if len(c19Worlds) >= 64 { // drawn elections: keep the cache bounded (the worlds in use stay referenced by their runs)
+		c19Worlds = map[string]*c19World{}
 	}
 	c19Worlds[key] = w
 	return w, nil
